@@ -158,6 +158,7 @@ func (p *c09) twin(text string, opt bool, names []string, need int64) *c09Twin {
 	t := &c09Twin{}
 	ctx := verifsim.NewSimContext(-1)
 	ctx.HardCap = cap
+	ctx.PanicAfter = 64 // (the twin only needs to be stopped, by whatever means)
 	h := newHost(ctx)
 	h.TotalBudget = int(cap)
 	e := evalfilter.New(text)
